@@ -126,6 +126,44 @@ CHECKS = {
              "parse_range is covered by C18 and the end-to-end monitor.",
         technique="Coq proof (lia + list induction) + vm_compute "
                   "correspondence"),
+    "C10": dict(
+        text="Theorems (all pair lists, all strings): parse_qsl(urlencode "
+             "pairs) = pairs (blank values kept or dropped per setting) for "
+             "every legal encoding (%XX either case, '+', literal), built on "
+             "a proved UTF-8 decode/encode round trip; Args collapse (single "
+             "-> scalar, repeated -> list in order, key order); getvalue/"
+             "getfirst/getlist agree for Args, FieldStorage, JsonDict, "
+             "JsonList, EmptyForm; invalid JSON -> 400 outcome; the body read "
+             "plan never requests more than Content-Length except in the raw-"
+             "stream multipart class (refuted by witness = known finding). "
+             "Correspondence through real Requests incl. an instrumented "
+             "wsgi.input + value-equality and byte-count oracle.",
+        design="7/C10",
+        note="json.loads and non-UTF-8 codecs are Section variables; "
+             "parse_qsl/unquote re-implemented and tied to CPython's "
+             "differentially; strict_parsing=0; known finding "
+             "multipart-raw-stream-reads-past-content-length.",
+        technique="Coq proof (lia-based UTF-8 and percent codec round trips, "
+                  "list induction) + vm_compute correspondence"),
+    "C13": dict(
+        text="Theorems: the XOR masking is an involution for every key "
+             "stream and text; write/load round trip under the codec laws "
+             "for every key; cookie attributes exactly as configured after "
+             "any history without destroy; after ANY history containing "
+             "destroy the emitted cookie is expired (expires=-1, Max-Age=-1 "
+             "when configured) (invariant + induction over histories); load "
+             "of any string either restores, keeps or raises SessionError, "
+             "never another exception; different key bytes give different "
+             "masked bytes. Correspondence of hidden() with the real SHA-512 "
+             "digest and of operation histories; monitor: round trip through "
+             "the real Cookie parser, foreign/truncated/garbage loads.",
+        design="7/C13",
+        note="json, bz2/zlib, base64 are a record of option-valued functions "
+             "with inverse laws as hypotheses; SHA-512 outside the model; "
+             "'foreign secret never restores equal data' is proved only at "
+             "the byte level (_partial), the rest is monitored.",
+        technique="Coq proof (Z.lxor algebra, invariant over operation "
+                  "histories) + vm_compute correspondence"),
     "C16": dict(
         text="Theorems over the model of get_token/check_token for every "
              "secret, client, T>0 and instants t0,t1>=0 (verify <-> aligned "
